@@ -1772,6 +1772,9 @@ func (s *Netceptor) handleServiceAdvertisement(data []byte, receivedFrom string)
 	if err != nil {
 		return err
 	}
+	if si.ServiceAdvertisement == nil {
+		return fmt.Errorf("service advertisement has no content")
+	}
 	s.Logger.SanitizedDebug("Received service advertisement from %s\n", si.NodeID)
 	s.serviceAdsLock.Lock()
 	defer s.serviceAdsLock.Unlock()
